@@ -102,8 +102,12 @@ class Gen:
         k = r.randint(1, min(maxn, len(names)))
         chosen = r.sample(names, k)
         out = []
+        if len(chosen) >= 2 and not allow_expr and self.coin(0.04):
+            chosen.append(chosen[0])          # the same column twice in one constraint
         for n in chosen:
             n = self.respell(n)
+            if not allow_expr and n[0] not in '"[`' and n.isascii() and self.coin(0.03):
+                n = "'%s'" % n                # a column name written as a string literal
             s = n
             if allow_expr and self.coin(0.12):
                 s = r.choice(["%s + 1", "lower(%s)", "%s || 'x'", "abs(%s)", "%s * 2", "length(%s)"]) % n
